@@ -556,6 +556,12 @@ class Engine:
                 outcome = self.run_path(it, run, c, fi)
             except PathEnd as pe:
                 outcome = ('end', pe.why)
+                if pe.why == 'loop body checked':
+                    # events performed inside a loop body are gated where the body path ends (the path never reaches a return)
+                    sc_ = it.spec_ctx()
+                    sc_.interp = it
+                    sc_.events = run.events
+                    self.check_events(it, run, c, sc_)
             dec.work.extend(run.new_work)
             feas_checks += run.feas_checks
             if outcome[0] == 'end' and outcome[1] in ('infeasible', 'no class feasible', 'pre-false'):
